@@ -22,7 +22,8 @@ def run(ctx):
     # ---- plain matrices -------------------------------------------------------------------------
     for case in range(30 if quick else 300):
         dim = rng.choice([6, 8, 12, 20, 40, 80])
-        kind = rng.choice(["generic", "diag-dominant", "diag-dominant", "diag-dominant-complex", "degenerate", "complex"])
+        kind = rng.choice(["generic", "diag-dominant", "diag-dominant", "diag-dominant-complex", "degenerate", "complex",
+                           "near-degenerate"])
         A = nr.randn(dim, dim)
         if kind in ("complex", "diag-dominant-complex"):
             A = A + 1j * nr.randn(dim, dim)
@@ -33,6 +34,13 @@ def run(ctx):
             Q, _ = numpy.linalg.qr(nr.randn(dim, dim))
             ev = numpy.sort(nr.randint(-3, 4, dim).astype(float))
             H = Q @ numpy.diag(ev) @ Q.T
+        if kind == "near-degenerate":
+            Q, _ = numpy.linalg.qr(nr.randn(dim, dim))
+            ev = numpy.sort(nr.uniform(0.0, 5.0, dim))
+            ev[1] = ev[0] + rng.choice([1e-3, 1e-4, 1e-5]) * 0.9
+            ev[2:] += 1.0
+            H = 0.02 * H + numpy.diag(ev)
+            H = (H + H.T) / 2
         nroots = rng.choice([1, 2, 3]) if dim >= 6 else 1
         exact = numpy.linalg.eigvalsh(H)
         desc = {"kind": kind, "dim": dim, "nroots": nroots, "case": case, "seed": ctx.seed}
@@ -59,13 +67,28 @@ def run(ctx):
             res = max(res, float(numpy.linalg.norm(H @ vec - w[i] * vec)), abs(float(numpy.linalg.norm(vec)) - 1.0))
         if err > 1e-6 or res > 1e-3:
             sig = f"davidson:matrix:{kind}"
+            nerr_m = max(abs(float(numpy.linalg.norm(numpy.asarray(v[i]).reshape(-1))) - 1.0) for i in range(nroots))
+            if cluster_unresolved(exact, w, nroots, res, nerr_m):
+                sig = "davidson:near-degenerate-cluster-not-resolved"
             ctx.disagree(sig, f"eigenvalue error {err:.2e}, residual/normalisation {res:.2e} (lowest exact {exact[:nroots]}, got {w})", desc)
+    # ---- corpus of minimised past failures (runs first on every tier) ---------------------------------------
+    import json
+    import os
+    cpath = os.path.join(os.path.dirname(os.path.dirname(os.path.abspath(__file__))), "corpus", "C18.json")
+    if os.path.exists(cpath):
+        for k, r in enumerate(json.load(open(cpath))):
+            if quick and ctx.path != "C" and k > 0:
+                continue
+            fqe_case(ctx, 1000 + r["case"], r["norb"], r["nalpha"], r["nbeta"], dec(r["h1"]), dec(r["h2"]), r["api"],
+                     r["nroots"], [dec(g) for g in r["guesses"]] if r.get("guesses") else None,
+                     r["complex_hamiltonian"], r["complex_guess_vectors"])
+            ctx.count("corpus")
     # ---- FQE Hamiltonians -------------------------------------------------------------------------
     from fqe.hamiltonians import restricted_hamiltonian
     for case in range(12 if quick else 80):
         big = case % 3 != 0
-        if big and quick and ctx.path != "C":
-            continue            # the solver code is path independent; the large sectors run on the fast kernels only
+        if big and ctx.path != "C" and (quick or case % 4 != 1):
+            continue            # the solver code is path independent; the large sectors run (mostly) on the fast kernels
         norb = rng.choice([4, 5]) if big else rng.choice([2, 3])
         na = rng.randint(1, norb - 1) if norb > 2 else 1
         nb = rng.randint(1, norb - 1) if norb > 2 else 1
@@ -82,57 +105,104 @@ def run(ctx):
             z = float(rng.choice([-0.5, 0.25, 0.5])) * (0.3 if big else 1.0) * (1j if cplx_h and rng.random() < 0.5 and (i, j, k, l) != (l, k, j, i) else 1)
             h2[i, j, k, l] += z
             h2[l, k, j, i] += numpy.conj(z)
-        ham = fqe.get_restricted_hamiltonian((h1, h2))
-        terms = U.restricted_terms([h1, h2], norb)
-        w0 = fqe.Wavefunction([[na + nb, na - nb, norb]])
-        dets = U.wfn_dets(w0)
-        if len(dets) < 4:
-            continue
-        Hm = hmatrix(d, norb, dets, terms, 0.0)
-        exact = numpy.linalg.eigvalsh(Hm)
+        guess_data = None
         key = (na + nb, na - nb)
         api = "davidsonliu_fqe" if big else rng.choice(["davidson_diagonalization", "davidsonliu_fqe"])
         nroots = rng.choice([1, 2]) if api == "davidsonliu_fqe" else 1
         cplx_g = api == "davidsonliu_fqe" and rng.random() < 0.5
-        desc = {"norb": norb, "nalpha": na, "nbeta": nb, "dim": len(dets), "case": case, "api": api, "nroots": nroots,
-                "complex_hamiltonian": bool(cplx_h), "complex_guess_vectors": bool(cplx_g)}
-        try:
-            if api == "davidson_diagonalization":
-                ew, ev = davidson.davidson_diagonalization(ham, na, nb, nroots=1)
-            else:
-                guesses = []
-                shp = w0.get_coeff(key).shape
-                for _ in range(nroots + 1):
-                    g = fqe.Wavefunction([[na + nb, na - nb, norb]])
-                    c = nr.randn(*shp) + (1j * nr.randn(*shp) if cplx_g else 0)
-                    g.set_wfn(strategy="from_data", raw_data={key: c.astype(numpy.complex128)})
-                    g.normalize()
-                    guesses.append(g)
-                ew, ev = davidson.davidsonliu_fqe(ham, nroots, guesses, na + nb, na - nb, norb)
-            oc = "returned"
-        except davidson.ConvergenceError:
-            oc = "ConvergenceError"
-        except Exception as exc:
-            oc = f"{type(exc).__name__}: {exc}"
-        ctx.case(("fqe", case), sample=desc if case < 3 else None)
-        ctx.count(f"fqe:{api}:{oc.split(':')[0]}")
-        ctx.count(f"fqe:complexH={int(cplx_h)}:complexGuess={int(cplx_g)}:nroots={nroots}")
-        if oc == "ConvergenceError":
+        if api == "davidsonliu_fqe":
+            shp = fqe.Wavefunction([[na + nb, na - nb, norb]]).get_coeff(key).shape
+            guess_data = [(nr.randn(*shp) + (1j * nr.randn(*shp) if cplx_g else 0)).astype(numpy.complex128)
+                          for _ in range(nroots + 1)]
+        fqe_case(ctx, case, norb, na, nb, h1, h2, api, nroots, guess_data, cplx_h, cplx_g)
+
+
+def cluster_unresolved(exact, got, nroots, res, nerr):
+    """True when the only defect of a returned set is that a Ritz value sits strictly inside a cluster of
+    near-degenerate exact eigenvalues (spread < 1e-3) instead of on its lowest member: normalised vectors, small
+    residuals, every value within the cluster of its target."""
+    if nerr > 1e-6 or res > 1e-3:
+        return False
+    g = numpy.sort(numpy.real(numpy.asarray(got)[:nroots]))
+    any_cluster = False
+    for i in range(nroots):
+        members = exact[numpy.abs(exact - exact[i]) < 1e-3]
+        if abs(g[i] - exact[i]) <= 1e-6:
             continue
-        if oc != "returned":
-            ctx.disagree(f"davidson:fqe-raises:{oc.split(':')[0]}", f"{api} raised {oc}", desc)
-            continue
-        err = float(numpy.abs(numpy.sort(numpy.real(numpy.asarray(ew)[:nroots])) - exact[:nroots]).max())
-        res, nerr = 0.0, 0.0
-        for i in range(nroots):
-            vec = vec_of(ev[i], dets)
-            res = max(res, float(numpy.linalg.norm(Hm @ vec - ew[i] * vec)))
-            nerr = max(nerr, abs(float(numpy.linalg.norm(vec)) - 1))
-        if err > 1e-6 or res > 1e-3 or nerr > 1e-6:
-            sig = "davidson:fqe" + (":complex-guess" if cplx_g else "") + (":complex-hamiltonian" if cplx_h else "")
-            ctx.disagree(sig, f"eigenvalue error {err:.2e}, residual {res:.2e}, normalisation error {nerr:.2e} "
-                         f"(exact {exact[:nroots]}, got {numpy.asarray(ew)[:nroots]})", desc)
+        if len(members) < 2 or not (members.min() - 1e-6 <= g[i] <= members.max() + 1e-6):
+            return False
+        any_cluster = True
+    return any_cluster
+
+
+def enc(a):
+    a = numpy.asarray(a, dtype=numpy.complex128)
+    return {"shape": list(a.shape), "re": a.real.ravel().tolist(), "im": a.imag.ravel().tolist()}
+
+
+def dec(o):
+    return (numpy.array(o["re"]) + 1j * numpy.array(o["im"])).reshape(o["shape"])
+
+
+def fqe_case(ctx, case, norb, na, nb, h1, h2, api, nroots, guess_data, cplx_h, cplx_g):
+    fqe, d = ctx.fqe, ctx.driver
+    from fqe.algorithm import davidson
+    key = (na + nb, na - nb)
+    if not (numpy.iscomplexobj(h1) and numpy.abs(numpy.imag(h1)).max() > 0) and not cplx_h:
+        h1, h2 = numpy.real(h1), numpy.real(h2)
+    ham = fqe.get_restricted_hamiltonian((h1, h2))
+    terms = U.restricted_terms([h1, h2], norb)
+    w0 = fqe.Wavefunction([[na + nb, na - nb, norb]])
+    dets = U.wfn_dets(w0)
+    if len(dets) < 4:
+        return
+    Hm = hmatrix(d, norb, dets, terms, 0.0)
+    exact = numpy.linalg.eigvalsh(Hm)
+    desc = {"norb": norb, "nalpha": na, "nbeta": nb, "dim": len(dets), "case": case, "api": api, "nroots": nroots,
+            "complex_hamiltonian": bool(cplx_h), "complex_guess_vectors": bool(cplx_g), "kind": "fqe",
+            "h1": enc(h1), "h2": enc(h2), "guesses": [enc(g) for g in guess_data] if guess_data is not None else None}
+    try:
+        if api == "davidson_diagonalization":
+            ew, ev = davidson.davidson_diagonalization(ham, na, nb, nroots=1)
+        else:
+            guesses = []
+            for c in guess_data:
+                g = fqe.Wavefunction([[na + nb, na - nb, norb]])
+                g.set_wfn(strategy="from_data", raw_data={key: numpy.array(c, dtype=numpy.complex128)})
+                g.normalize()
+                guesses.append(g)
+            ew, ev = davidson.davidsonliu_fqe(ham, nroots, guesses, na + nb, na - nb, norb)
+        oc = "returned"
+    except davidson.ConvergenceError:
+        oc = "ConvergenceError"
+    except Exception as exc:
+        oc = f"{type(exc).__name__}: {exc}"
+    ctx.case(("fqe", case), sample={k: v for k, v in desc.items() if k not in ("h1", "h2", "guesses")} if case < 3 else None)
+    ctx.count(f"fqe:{api}:{oc.split(':')[0]}")
+    ctx.count(f"fqe:complexH={int(cplx_h)}:complexGuess={int(cplx_g)}:nroots={nroots}")
+    if oc == "ConvergenceError":
+        return
+    if oc != "returned":
+        ctx.disagree(f"davidson:fqe-raises:{oc.split(':')[0]}", f"{api} raised {oc}", desc)
+        return
+    err = float(numpy.abs(numpy.sort(numpy.real(numpy.asarray(ew)[:nroots])) - exact[:nroots]).max())
+    res, nerr = 0.0, 0.0
+    for i in range(nroots):
+        vec = vec_of(ev[i], dets)
+        res = max(res, float(numpy.linalg.norm(Hm @ vec - ew[i] * vec)))
+        nerr = max(nerr, abs(float(numpy.linalg.norm(vec)) - 1))
+    if err > 1e-6 or res > 1e-3 or nerr > 1e-6:
+        sig = "davidson:fqe" + (":complex-guess" if cplx_g else "") + (":complex-hamiltonian" if cplx_h else "")
+        if cluster_unresolved(exact, ew, nroots, res, nerr):
+            sig = "davidson:near-degenerate-cluster-not-resolved"
+        ctx.disagree(sig, f"eigenvalue error {err:.2e}, residual {res:.2e}, normalisation error {nerr:.2e} "
+                     f"(lowest exact {exact[:nroots + 2]}, got {numpy.asarray(ew)[:nroots]})", desc)
 
 
 def replay(ctx, rep):
-    run(ctx)
+    r = rep.get("violation", rep).get("replay", rep) if isinstance(rep, dict) else rep
+    if r.get("kind") == "fqe" and r.get("h1"):
+        fqe_case(ctx, r["case"], r["norb"], r["nalpha"], r["nbeta"], dec(r["h1"]), dec(r["h2"]), r["api"], r["nroots"],
+                 [dec(g) for g in r["guesses"]] if r.get("guesses") else None, r["complex_hamiltonian"], r["complex_guess_vectors"])
+    else:
+        run(ctx)
